@@ -772,6 +772,20 @@ func (x *Exec) runDefers(r *retState) *State {
 
 func (x *Exec) execDefer(s *State, st *ast.DeferStmt) {
 	e := st.Call
+	if id, ok := unparen(e.Fun).(*ast.Ident); ok {
+		if b, ok := x.info().Uses[id].(*types.Builtin); ok {
+			// defer close(ch) / delete(m, k) / ...: operands are simple expressions; they are evaluated
+			// when the deferred call runs (sound for variables that are not reassigned in between, which
+			// is noted as an assumption)
+			ex := x
+			name := b.Name()
+			x.eng.note("deferred builtin calls evaluate their operands when they run (operands assumed not reassigned in between)")
+			s.defers = append(append([]*deferred(nil), s.defers...), &deferred{run: func(st *State) {
+				ex.evalBuiltin(st, name, e)
+			}})
+			return
+		}
+	}
 	// intrinsic deferred calls (Unlock etc.) and ordinary calls: arguments are evaluated now
 	c := x.resolveCallee(s, e)
 	var recv *Val
